@@ -166,11 +166,23 @@ def run(ctx):
         ctx.count("lengths:" + ",".join(map(str, sorted(set(lens))))); ctx.count("batch_size:%d" % len(batch))
         if len(ctx.samples) < 2:
             ctx.sample({"lengths": lens, "kind": next(iter(batch[0]))})
+        objs = [to_impl(d) for d in batch]
+        before = [canon_datum(o) for o in objs]
         try:
-            res = ("ok", canon(zero_pad_collator([to_impl(d) for d in batch])))
+            res = ("ok", canon(zero_pad_collator(objs)))
         except Exception as e:
             res = ("error", type(e).__name__ + ": " + str(e)[:100])
         if res[0] == "ok":
+            # collation is a function of the batch: it leaves the examples it was given as they were, and collating the same objects again
+            # (a dataset kept in memory and batched every epoch) gives the same batch
+            try:
+                after = [canon_datum(o) for o in objs]
+                again = canon(zero_pad_collator(objs))
+            except Exception as e:
+                after, again = None, type(e).__name__
+            if after != before or again != res[1]:
+                ctx.violation("collation changes the examples it was given, or collating the same examples again gives another batch", info,
+                              {"examples_changed": after != before, "second_result_differs": again != res[1]}, True, size=len(batch), signature={"clause": "inputs"})
             oracle(ctx, info, batch, res[1])
         else:
             ctx.violation("collating a valid batch raises", info, {"error": res[1]}, True, size=len(batch), signature={"clause": "raises", "lengths": sorted(set(lens))})
